@@ -57,7 +57,18 @@ type constInfo struct {
 	Type  string `json:"type"`
 }
 
+// literalCompare: `<expr>.State <op> <int literal>` inside package control.
+type literalCompare struct {
+	File  string `json:"file"`
+	Line  int    `json:"line"`
+	Func  string `json:"func"`
+	Field string `json:"field"`
+	Op    string `json:"op"`
+	Value string `json:"value"`
+}
+
 type output struct {
+	StateLiterals []literalCompare `json:"state_literals"`
 	Structs map[string]map[string]*structInfo `json:"structs"` // arch -> "file:name" -> info
 	Param   map[string]*structInfo            `json:"param"`   // arch -> PARAM literal
 	Consts  map[string]constInfo              `json:"consts"`  // "consts.X" / "control.X"
@@ -257,6 +268,42 @@ func main() {
 			if !found {
 				out.Notes = append(out.Notes, "PARAM literal not found in bpf_utils.go")
 			}
+		}
+	}
+
+	// bare integer literals the Go side compares a conn-state `State` field with
+	gofiles, _ := filepath.Glob(filepath.Join(repo, "control", "*.go"))
+	sort.Strings(gofiles)
+	for _, gf := range gofiles {
+		if strings.HasSuffix(gf, "_test.go") {
+			continue
+		}
+		af, err := parser.ParseFile(fset, gf, nil, parser.SkipObjectResolution)
+		if err != nil {
+			continue
+		}
+		for _, d := range af.Decls {
+			fd, ok := d.(*ast.FuncDecl)
+			if !ok || fd.Body == nil {
+				continue
+			}
+			ast.Inspect(fd.Body, func(n ast.Node) bool {
+				be, ok := n.(*ast.BinaryExpr)
+				if !ok {
+					return true
+				}
+				sel, lit := be.X, be.Y
+				if _, isLit := sel.(*ast.BasicLit); isLit {
+					sel, lit = lit, sel
+				}
+				se, ok1 := sel.(*ast.SelectorExpr)
+				bl, ok2 := lit.(*ast.BasicLit)
+				if ok1 && ok2 && bl.Kind == token.INT && se.Sel.Name == "State" {
+					out.StateLiterals = append(out.StateLiterals, literalCompare{File: filepath.Base(gf), Line: fset.Position(be.Pos()).Line,
+						Func: fd.Name.Name, Field: se.Sel.Name, Op: be.Op.String(), Value: bl.Value})
+				}
+				return true
+			})
 		}
 	}
 
